@@ -9,6 +9,10 @@ import threading as _threading
 import time as _time
 
 
+class _IterationDone(Exception):
+    pass
+
+
 class InertThread:
     def __init__(self, *a, **kw):
         self.target = kw.get("target")
@@ -78,8 +82,32 @@ class W2:
         self.clock.t += dt
 
     @staticmethod
-    def step(sock, substeps=("send", "recv", "loop", "cleanup", "hook")):
-        """One iteration of GeckoUdpSocket._thread_func's body."""
+    def step(sock, substeps=None):
+        """One iteration of the engine thread.  Without `substeps`: exactly one pass of the REAL
+        GeckoUdpSocket._thread_func loop body (the loop is entered and left again when it comes round to
+        its first statement a second time), so that the order, the skipping and the repetition of the
+        sub-steps are the code's own.  With `substeps`: the named sub-steps only (C20's replay steps the
+        model's sub-actions one by one)."""
+        if substeps is None:
+            if not sock.isopen:
+                return
+            calls = [0]
+            orig = type(sock)._process_send_requests
+
+            def first_statement():
+                calls[0] += 1
+                if calls[0] > 1:
+                    raise _IterationDone()
+                return orig(sock)
+
+            sock._process_send_requests = first_statement
+            try:
+                sock._thread_func()
+            except _IterationDone:
+                pass
+            finally:
+                del sock._process_send_requests
+            return
         if "send" in substeps:
             sock._process_send_requests()
         if "recv" in substeps:
